@@ -241,8 +241,32 @@ def compress_rules(ctx, R="R3", with_downcast=True):
            "the number of decimals must be chosen so that the relative error stays below the tolerance", gd_.lineno,
            nontrivial=False)
 
+    # the search for the number of decimals counts upwards without a limit: it must also end when no number of decimals can reach the
+    # tolerance (a subnormal value needs more decimals than 10**d has in the array's type: the rounded values turn NaN and the error
+    # test is false for ever).  An exit of the loop has to test that - finiteness of what was computed, or the counter itself
+    n_unbounded = 0
+    for lp in ast.walk(gd_):
+        if isinstance(lp, ast.For) and isinstance(lp.iter, ast.Call) and (call_name(lp.iter) or "").split(".")[-1] == "count" \
+                or isinstance(lp, ast.While) and isinstance(lp.test, ast.Constant) and lp.test.value in (True, 1):
+            n_unbounded += 1
+            counter = {x.id for x in ast.walk(lp.target) if isinstance(x, ast.Name)} if isinstance(lp, ast.For) else set()
+            bounded = False
+            for st in ast.walk(lp):
+                if isinstance(st, ast.If) and any(isinstance(b, (ast.Return, ast.Break, ast.Raise)) for b in st.body):
+                    direct = any(isinstance(c_, ast.Compare) and any(isinstance(x, ast.Name) and x.id in counter for x in [c_.left] + c_.comparators)
+                                 for c_ in ast.walk(st.test))
+                    finite = any(isinstance(c_, ast.Call) and (call_name(c_) or "").split(".")[-1] in ("isfinite", "isnan", "isinf") for c_ in ast.walk(st.test))
+                    bounded = bounded or direct or finite
+            ctx.ob(R + ".decimal-search-ends", COMPRESS, "_get_decimal_places", lp.iter if isinstance(lp, ast.For) else "while True",
+                   bounded,
+                   "the loop counts decimals upwards until the rounding error is below the tolerance and has no other exit: for a value so small that "
+                   "10**decimals overflows the array's type first (a subnormal float) the rounded values become NaN, the test never holds and "
+                   "compress() never returns", lp.lineno)
+    ctx.need(n_unbounded <= 1, "one search loop in _get_decimal_places")
+
 
 MUTANTS = [
+    Mutant("decimal-search-without-bound", COMPRESS, "        if not np.isfinite(rounded).all():\n", "        if False:\n", "R3.decimal-search-ends"),
     Mutant("packer-single-float", BCIF, "            serialized_content, use_bin_type=True, default=_encode_numpy\n", "            serialized_content, use_bin_type=True, use_single_float=True, default=_encode_numpy\n",
            "R5.msgpack-lossless"),
     Mutant("category-tolerance-default", COMPRESS, "        compressed_column = _compress_column(bcif_column, float_tolerance)\n", "        compressed_column = compress(bcif_column)\n",
@@ -270,9 +294,9 @@ MUTANTS = [
     Mutant("safecast-upper-dropped", ENC, "        if np.any(array < dtype_info.min) or np.any(array > dtype_info.max):", "        if np.any(array < dtype_info.min):",
            "R4.safe-cast-bounds"),
     Mutant("regress-compress-guard", COMPRESS,
-           "        if not np.isfinite(array).all() or (\n            np.abs(array) * factor >= np.iinfo(np.int32).max\n        ).any():\n            # The fixed point representation is a 32 bit integer:\n            # non-finite or too large values can only be kept as float\n            return bcif.BinaryCIFData(array, [ByteArrayEncoding()])\n",
+           "        if (\n            factor is None\n            or not np.isfinite(array).all()\n            or (np.abs(array) * factor >= np.iinfo(np.int32).max).any()\n        ):\n            # The fixed point representation is a 32 bit integer:\n            # non-finite or too large values can only be kept as float\n            return bcif.BinaryCIFData(array, [ByteArrayEncoding()])\n",
            "", "R3.fixed-point-guarded"),
-    Mutant("compress-guard-unscaled", COMPRESS, "            np.abs(array) * factor >= np.iinfo(np.int32).max", "            np.abs(array) >= np.iinfo(np.int32).max",
+    Mutant("compress-guard-unscaled", COMPRESS, "(np.abs(array) * factor >= np.iinfo(np.int32).max).any()", "(np.abs(array) >= np.iinfo(np.int32).max).any()",
            "R3.fixed-point-guard-scaled"),
     Mutant("typecode-dtype", ENC, '    TypeCode.UINT16: "<u2",', '    TypeCode.UINT16: "<i2",', "R1.typecode-dtypes"),
     Mutant("decode-not-reversed", ENC, "    for enc in reversed(encoding):\n        data = enc.decode(data)", "    for enc in encoding:\n        data = enc.decode(data)",
